@@ -678,6 +678,22 @@ func packDataApl(data []APLPrefix, msg []byte, off int) (int, error) {
 	return off, nil
 }
 
+// wireAddress returns the address octets of p as they go on the wire: masked, cut at
+// the prefix length and with trailing zero octets trimmed as specified in RFC 3123
+// Sections 4.1 and 4.2.
+func (p *APLPrefix) wireAddress() []byte {
+	if len(p.Network.IP) != len(p.Network.Mask) {
+		return nil
+	}
+	prefix, _ := p.Network.Mask.Size()
+	addr := p.Network.IP.Mask(p.Network.Mask)[:(prefix+7)/8]
+
+	i := len(addr) - 1
+	for ; i >= 0 && addr[i] == 0; i-- {
+	}
+	return addr[:i+1]
+}
+
 func packDataAplPrefix(p *APLPrefix, msg []byte, off int) (int, error) {
 	if len(p.Network.IP) != len(p.Network.Mask) {
 		return len(msg), &Error{err: "address and mask lengths don't match"}
@@ -685,7 +701,7 @@ func packDataAplPrefix(p *APLPrefix, msg []byte, off int) (int, error) {
 
 	var err error
 	prefix, _ := p.Network.Mask.Size()
-	addr := p.Network.IP.Mask(p.Network.Mask)[:(prefix+7)/8]
+	addr := p.wireAddress()
 
 	switch len(p.Network.IP) {
 	case net.IPv4len:
@@ -708,12 +724,6 @@ func packDataAplPrefix(p *APLPrefix, msg []byte, off int) (int, error) {
 	if p.Negation {
 		n = 0x80
 	}
-
-	// trim trailing zero bytes as specified in RFC3123 Sections 4.1 and 4.2.
-	i := len(addr) - 1
-	for ; i >= 0 && addr[i] == 0; i-- {
-	}
-	addr = addr[:i+1]
 
 	adflen := uint8(len(addr)) & 0x7f
 	off, err = packUint8(n|adflen, msg, off)
